@@ -508,7 +508,21 @@ fn make_mmap(tmpfile: &mut NamedTempFile, size: Option<usize>) -> Result<Option<
                 tmpfile.path().display()
             )
         })?;
-        Ok(unsafe { MmapMut::map_mut(tmpfile.as_file()).ok() })
+        match unsafe { MmapMut::map_mut(tmpfile.as_file()) } {
+            Ok(mmap) => Ok(Some(mmap)),
+            // Without a mapping the data goes through plain writes. The file
+            // must not keep its preallocated length then: nothing cuts it
+            // back later, and a short write would publish the zero tail.
+            Err(_) => {
+                tmpfile.as_file().set_len(0).with_context(|| {
+                    format!(
+                        "Failed to configure file length for temp file at {}",
+                        tmpfile.path().display()
+                    )
+                })?;
+                Ok(None)
+            }
+        }
     } else {
         Ok(None)
     }
